@@ -96,9 +96,13 @@ func (r *Reader) HasAudio() bool {
 
 // Writer flv Writer
 type Writer struct {
-	w              io.Writer
-	timestampDelta uint32 // 流在中间输出时的相对时间戳
-	hasDelta       bool   // timestampDelta 已由第一个 Tag 确定
+	w io.Writer
+
+	// 流在中间输出时的相对时间戳：
+	// 输出的时间戳是相对本 Writer 第一个媒体 Tag 的毫秒数
+	started       bool   // 已输出过媒体 Tag
+	lastTimestamp uint32 // 上一个媒体 Tag 的源时间戳
+	elapsed       int64  // 上一个媒体 Tag 相对第一个媒体 Tag 的毫秒数，可能为负
 }
 
 // NewWriter .
@@ -135,15 +139,40 @@ func (w *Writer) writeTagSize(tagSize uint32) error {
 	return nil
 }
 
-// WriteFlvTag write flv tag
-func (w *Writer) WriteFlvTag(tag *Tag) error {
-	// 记录第一个Tag的时间戳
-	if !w.hasDelta {
-		w.timestampDelta = tag.Timestamp
-		w.hasDelta = true
+// relativeTimestamp returns the timestamp to write for tag: the milliseconds
+// elapsed since the first media tag of this writer.
+//
+// The source clock is followed from media tag to media tag with signed 32-bit
+// differences accumulated in 64 bits, so it may wrap around 2^32 ms at any
+// point, and a tag that is older than the first one (for example an audio
+// frame behind the key frame a consumer started on, audio and video have
+// different time bases) is written with timestamp 0 instead of a wrapped
+// value close to 2^32.
+//
+// Metadata and sequence header tags carry no media time of their own (the
+// muxer stamps them 0, the stream cache re-stamps them for a new consumer),
+// so they are written at the current position and do not move it.
+func (w *Writer) relativeTimestamp(tag *Tag) uint32 {
+	if !(tag.IsMetadata() || tag.IsH2645SequenceHeader() || tag.IsAACSequenceHeader()) {
+		if !w.started {
+			w.started = true
+			w.lastTimestamp = tag.Timestamp
+		}
+		w.elapsed += int64(int32(tag.Timestamp - w.lastTimestamp))
+		w.lastTimestamp = tag.Timestamp
 	}
 
-	if err := writeTag(w.w, tag, w.timestampDelta); err != nil {
+	if w.elapsed < 0 {
+		return 0
+	}
+	return uint32(w.elapsed)
+}
+
+// WriteFlvTag write flv tag
+func (w *Writer) WriteFlvTag(tag *Tag) error {
+	// writeTag 输出 tag.Timestamp - timestampDelta
+	timestampDelta := tag.Timestamp - w.relativeTimestamp(tag)
+	if err := writeTag(w.w, tag, timestampDelta); err != nil {
 		return err
 	}
 
